@@ -19,7 +19,7 @@ def run(ctx):
     lz.scaled_design(ctx)
     jobs = ctx.path("jobs.ndjson")
     p = vlib.run_harness(ctx, binary, ["lzh-run", "--out", ctx.path("c06traces.ndjson"), "--jobs", jobs, "--inputs", ctx.path("in.ndjson"),
-                                       "--budget", "60000" if quick else "900000", "--tier", ctx.tier], timeout=3000)
+                                       "--budget", "200000" if quick else "900000", "--tier", ctx.tier], timeout=3000)
     if p.returncode != 0:
         raise vlib.Undecided("lzh-run failed: rc=%d %s" % (p.returncode, p.stderr[-3000:]))
     st = json.loads(p.stdout.strip().splitlines()[-1])
